@@ -169,7 +169,7 @@ def body_first_use(rep, case):
                     days = {getattr(Days, n) for n in names}
                     want = sum(1 << (list(Days).index(d) + 1) for d in days)
                     got = tools.weekdays_to_hexadecimal(days)
-                    if got != f"{want:02x}":
+                    if not isinstance(got, str) or got.lower() != f"{want:02x}":      # upper- or lower-case digits: not stated
                         out["errors"].append(["encode", sorted(names), f"{want:02x}", got])
 
             def dec_all():
